@@ -8,8 +8,8 @@ import vf
 import vals
 from pool import word
 
-KINDS_W = ["pedantic", "buffer", "constexpr", "sstream", "fd"]
-KINDS_R = ["pedantic", "buffer", "sstream", "fstream", "fd", "fdburst"]
+KINDS_W = ["pedantic", "buffer", "constexpr", "sstream", "fd", "fdintr"]
+KINDS_R = ["pedantic", "buffer", "sstream", "fstream", "fd", "fdburst", "fdintr"]
 BIGCAP = 1 << 20
 
 
@@ -177,7 +177,7 @@ def check_C03(run):
         big_value = len(json.dumps(v)) > 20000
         # rotating writer kinds; in the thorough tier every writer kind the type can use (tables need Skip, which an
         # FdWriter does not have; floating point is not constexpr-serialisable)
-        wks = [KINDS_W[i % 4]] if (not thorough or big_value) else [k for k in KINDS_W if not (k == "fd" and needs_skip(S))]
+        wks = [KINDS_W[i % 4]] if (not thorough or big_value) else [k for k in KINDS_W if not (k.startswith("fd") and needs_skip(S))]
         for wk in wks:
             if has_kind(S, ("flt",)) and wk == "constexpr":
                 wk = "pedantic"
@@ -266,7 +266,7 @@ def small_values(run, types, nrandom=1, limit_bytes=600):
 
 
 def all_reader_kinds(S):
-    ks = ["pedantic", "buffer", "sstream", "fstream"] + ([] if needs_skip(S) else ["fd", "fdburst"])
+    ks = ["pedantic", "buffer", "sstream", "fstream"] + ([] if needs_skip(S) else ["fd", "fdburst", "fdintr"])
     out = list(ks)
     for k in ks:
         out.append({"bounded": k, "limit": BIGCAP})
@@ -375,7 +375,8 @@ def check_C05(run):
                 hgroups.append([{"c": "w", "wk": "pedantic", "cap": 1 << 20, "items": [{"tid": wt, "v": v}], "nolog": 1, "lean": 1},
                                 {"c": "rcuts", "tid": rt, "rks": ["pedantic", "buffer", "sstream", "fstream", "fd", {"bounded": "sstream", "limit": 1 << 20}],
                                  "src": "last", "stride": 211 if n_chars < 10000 else 3001, "lean": 1}])
-    cmds = with_group_resets(groups) + with_group_resets(hgroups, 1)
+    # the library's reader classes directly (typed block transfers): 16 encodings x every strict prefix
+    cmds = with_group_resets(groups) + with_group_resets(hgroups, 1) + [{"c": "forms", "n": 96, "cuts": 1}]
     run.samples = groups[0] + groups[-1]
     run_codec(run, 'C05', cmds, mc=[MC_WIRE, mc_session(run)])
     run.exhaustive = False
@@ -420,7 +421,7 @@ def check_C06(run):
         if (tid, vf.digest(v)) not in run.distinct:
             cmds.append({"c": "wcaps", "tid": tid, "v": v, "wks": [], "extra": 0})
             run.distinct.add((tid, vf.digest(v)))
-    cmds = with_resets(cmds, 6) + [{"c": "forms", "n": 96}]
+    cmds = with_resets(cmds, 6) + [{"c": "forms", "n": 96, "cuts": 1}]
     run.samples = [c for c in cmds if c.get("c") == "wcaps"][:3]
     run_codec(run, 'C06', cmds, mc=MC_WIRE)
     return vf.finish(run, rule='every pool type x values x every capacity 0..GetSize+2 x {BufferWriter, PedanticBufferWriter, '
@@ -974,20 +975,20 @@ def check_C17(run):
     k = 0
     for side in ("r", "w"):
         full, sample = seqs[side]
-        kinds = (["pedantic", "buffer", "sstream", "fstream", "fd", "fdburst", "fdbad"] if side == "r"
-                 else ["pedantic", "buffer", "constexpr", "sstream", "fd", "lstream", "fdfull", "fdpart"])
+        kinds = (["pedantic", "buffer", "sstream", "fstream", "fd", "fdburst", "fdbad", "fdintr"] if side == "r"
+                 else ["pedantic", "buffer", "constexpr", "sstream", "fd", "lstream", "fdfull", "fdpart", "fdintr"])
         lens = (0, 1, 2, 3, 4, 6, 12) if side == "r" else (0, 1, 2, 3, 4, 6)
         allseqs = list(full) + list(sample) + random_sequences(rng, side, 6000 if thorough else 500, 10)
         for seq in allseqs:
             for ln in (lens if (thorough or len(seq) <= 2) else (lens[k % 6],)):
                 for kind in kinds:
                     for bounded in (False, True):
-                        if kind in ("fd", "fdburst", "fdfull", "fdbad", "fdpart") and any(c["op"] in ("skip", "pad", "skipw", "padw") for c in seq):
+                        if kind in ("fd", "fdburst", "fdfull", "fdbad", "fdpart", "fdintr") and any(c["op"] in ("skip", "pad", "skipw", "padw") for c in seq):
                             continue
                         if not bounded and any(c["op"] in ("pad", "padw") for c in seq):
                             continue
                         # an unbounded sink asked to skip ~2^64 bytes legitimately never finishes
-                        if kind in ("sstream", "fd") and side == "w" and any(c["op"] == "skipw" and c["n"] < 0 for c in seq):
+                        if kind in ("sstream", "fd", "fdintr") and side == "w" and any(c["op"] == "skipw" and c["n"] < 0 for c in seq):
                             continue
                         if bounded and (k % 4) and len(seq) > 2:
                             k += 1
@@ -1794,7 +1795,7 @@ def random_tl_program(rng, n):
         elif op == "io":
             prog.append(_io_step(rng, pad))
         else:
-            prog.append({"op": op, "slot": rng.randrange(6), "val": rng.randrange(1, 1000)})
+            prog.append({"op": op, "slot": rng.randrange(9), "val": rng.randrange(1, 1000)})
     return prog
 
 
@@ -1815,10 +1816,18 @@ def check_C19(run):
                         extra_cfg='INVARIANT ScheduleIndependent\nPROPERTY Isolation', timeout=900, workers=8, label='mc3')
     rng.shuffle(scheds2)
     cmds = []
-    for sc in scheds2[:(3000 if thorough else 600)]:
-        cmds.append({"c": "tl", "mode": "lockstep", "threads": 2, "schedule": sc})
-    for sc in scheds3:
-        cmds.append({"c": "tl", "mode": "lockstep", "threads": 3, "schedule": sc})
+    # Threads.tla treats slots uniformly, so a behaviour with its slots renamed injectively is again a behaviour: each
+    # schedule is replayed on a rotating choice of three of the nine real slots (index / default / type slots over int
+    # and long, and the slots whose value type owns heap storage: string, vector, unique_ptr)
+    renamings = [(0, 1, 2), (6, 7, 8), (3, 4, 5), (6, 1, 8), (0, 7, 2), (8, 6, 7), (5, 6, 0), (7, 3, 6)]
+
+    def renamed(sc, i):
+        m = renamings[i % len(renamings)]
+        return [dict(st, slot=m[st["slot"]]) for st in sc]
+    for i, sc in enumerate(scheds2[:(3000 if thorough else 600)]):
+        cmds.append({"c": "tl", "mode": "lockstep", "threads": 2, "schedule": renamed(sc, i)})
+    for i, sc in enumerate(scheds3):
+        cmds.append({"c": "tl", "mode": "lockstep", "threads": 3, "schedule": renamed(sc, i)})
     # free-running threads: ThreadLocal operations on shared slot types and codec round trips on own objects
     for _ in range(150 if thorough else 40):
         n = rng.choice([4, 8, 16])
